@@ -199,6 +199,9 @@ def oracle_reparse(case: Any, obs: Any) -> Optional[str]:
         want_ats = ['span@class'] if case[1][1] is not None else []
         if els != want_els or sorted(ats) != want_ats:
             return 'node2stan of an inline node holding %r created elements %s attributes %s' % (t, els, ats)
+    if fn == 14:
+        # docutils uses NUL as its internal escape marker: Text.astext() drops it (with a following space / newline)
+        t = re.sub('\x00[ \n]?', '', t)
     if text != neutralised(t):
         return 'the re-parse path shows %r for the text %r (expected %r)' % (text, t, neutralised(t))
     return None
@@ -956,12 +959,26 @@ class Check(PropertyCheck):
                 if isinstance(c, list) and len(c) == 2 and c[0] == 10 and c[1][3]:
                     repl = c[1][3][0]
                 elif isinstance(c, dict) and 'payloads' in c:
-                    # a whole run: the payload at the deprecated site is of the known class and every other site is harmless
+                    # a whole run: every other site holds the harmless payload
                     pl = c['payloads']
                     if all(pl[s] == BENIGN for s in SITES if s != 'depr') and pl.get('depr'):
                         repl = pl['depr']
-                if v.kind == 'oracle' and repl is not None and not self.is_dotted_identifier(repl) and \
-                        any(ch in repl for ch in m['chars']):
+                if v.kind != 'oracle' or repl is None or self.is_dotted_identifier(repl):
+                    continue
+                trigger = any(ch in repl for ch in m['chars']) or repl != repl.strip() or not repl.strip()
+                if not trigger:
+                    continue
+                if isinstance(c, dict):
+                    return k
+                # exactly this class: with the triggers removed (white space collapsed, back-quotes replaced) the same
+                # argument passes the oracle on the real code
+                t2 = ' '.join(repl.replace('`', "'").split())
+                c2 = [10, [c[1][0], c[1][1], c[1][2], [t2]]]
+                key = json.dumps(c2)
+                if key not in self._known_cache:
+                    o2 = lib.run_impl_worker('c10_units.py', [c2])[0]
+                    self._known_cache[key] = self.oracle_depr(c2, o2) is None
+                if self._known_cache[key]:
                     return k
         return None
 
